@@ -462,6 +462,48 @@ func (e *SpecEnv) call(n SCall) *Val {
 			sfail("freshSlice(slice)")
 		}
 		return boolVal(And(Ge(v.T, e.old.NextRef), Lt(v.T, e.st.NextRef), Eq(v.Off, Num(0))))
+	case "storeOf":
+		// name of the KV store opened with the given store key (interface value)
+		v := e.eval(n.Args[0])
+		if v.K != VIface {
+			sfail("storeOf(storeKey)")
+		}
+		return &Val{K: VStr, T: UF("storeName", []string{SInt, SInt}, SStr, v.Tag, v.T)}
+	case "encOf":
+		// encOf("pkg.Type", leaf values...) — the codec encoding of a flat message with these field values
+		s, ok := n.Args[0].(SStrLit)
+		if !ok {
+			sfail("encOf(\"Type\", fields...)")
+		}
+		t := e.x.P.resolveType(e.pkg, s.S)
+		fl := flatten(t)
+		var args []*Term
+		var sorts []string
+		for _, a := range n.Args[1:] {
+			args = append(args, scalar(e.eval(a)))
+		}
+		if len(args) != len(fl) {
+			sfail("encOf(%s): %d field values, type has %d leaves", s.S, len(args), len(fl))
+		}
+		for i, l := range fl {
+			if args[i].Sort != l.Sort {
+				sfail("encOf(%s): field %d has sort %s, want %s", s.S, i, args[i].Sort, l.Sort)
+			}
+			sorts = append(sorts, l.Sort)
+		}
+		return &Val{K: VStr, T: UF("enc:"+heapTypeKey(t), sorts, SStr, args...)}
+	case "enc":
+		v := e.eval(n.Args[0])
+		if v.K == VPtr {
+			v = e.x.loadNoCheck(e.st, v)
+		}
+		return &Val{K: VStr, T: e.x.encTerm(e.st, v)}
+	case "snap":
+		v := e.eval(n.Args[0])
+		if v.K == VPtr {
+			v = e.x.loadNoCheck(e.st, v)
+		}
+		return &Val{K: VInt, T: e.x.snapTerm(e.st, v)}
 	case "allocated":
 		// the reference existed before the call (is not a fresh allocation)
 		return boolVal(Lt(toInt(e.eval(n.Args[0])), e.st.NextRef))
@@ -572,6 +614,16 @@ var libUFs = map[string][]string{
 	"fromBech32":   {SStr, SStr},
 	"strlen":       {SStr, SInt},
 	"intString":    {SInt, SStr},
+	"sha256hex":    {SStr, SStr},
+	"jsonField":    {SStr, SStr, SStr},
+	"algKnown":     {SStr, SBool},
+	"algOf":        {SStr, SInt},
+	"b64ok":        {SStr, SBool},
+	"b64dec":       {SStr, SStr},
+	"certOk":       {SStr, SBool},
+	"certSource":   {SInt, SStr},
+	"sigVerifies":  {SStr, SInt, SStr, SStr, SBool},
+	"timeString":   {SInt, SStr},
 }
 
 var predSet = map[*SpecFunc]bool{}
